@@ -373,21 +373,19 @@ Proof.
   unfold intended_newsa.
   destruct Hpr as [Hp|Hp]; rewrite Hp; cbn [Z.eqb Pos.eqb app flat_map].
   - destruct (Henc Hp) as [He Hk].
+    replace (S (newsa_length a)) with (S (S (S (newsa_length a - 2)))) by lia.
     rewrite nla_parse_algo by (first [assumption | lia]).
-    rewrite app_nil_r.
-    rewrite <- (app_nil_r (attr_bytes (algo_attr 1 (a_auth a) (a_ska a)))) at 1.
     rewrite nla_parse_algo by (first [assumption | lia]).
-    replace (newsa_length a) with (S (S (newsa_length a - 2))) by lia. rewrite nla_parse_nil.
+    rewrite nla_parse_nil.
     cbn [nla_find N.eqb Pos.eqb Z.to_N K.XFRMA_ALG_CRYPT K.XFRMA_ALG_AUTH opt_algo].
-    destruct (algo_attr_decoded 2 (a_enc a) (a_ske a) (attr_bytes (algo_attr 1 (a_auth a) (a_ska a))) ltac:(lia) He Hk)
+    destruct (algo_attr_decoded 2 (a_enc a) (a_ske a) (attr_bytes (algo_attr 1 (a_auth a) (a_ska a)) ++ []) ltac:(lia) He Hk)
       as (_ & _ & D1).
     destruct (algo_attr_decoded 1 (a_auth a) (a_ska a) [] ltac:(lia) Hauth Hska) as (_ & _ & D2).
     change NLA_HDRLEN with 4 in D1, D2. change (136 - 4) with 132 in D1, D2.
     rewrite D1, D2. reflexivity.
-  - rewrite app_nil_r.
-    rewrite <- (app_nil_r (attr_bytes (algo_attr 1 (a_auth a) (a_ska a)))) at 1.
+  - replace (S (newsa_length a)) with (S (S (newsa_length a - 1))) by lia.
     rewrite nla_parse_algo by (first [assumption | lia]).
-    replace (newsa_length a) with (S (newsa_length a - 1)) by lia. rewrite nla_parse_nil.
+    rewrite nla_parse_nil.
     cbn [nla_find N.eqb Pos.eqb Z.to_N K.XFRMA_ALG_CRYPT K.XFRMA_ALG_AUTH opt_algo].
     destruct (algo_attr_decoded 1 (a_auth a) (a_ska a) [] ltac:(lia) Hauth Hska) as (_ & _ & D2).
     change NLA_HDRLEN with 4 in D2. change (136 - 4) with 132 in D2.
